@@ -594,6 +594,11 @@ func (e c15Engine) Run(scAny any, keep bool) core.Outcome {
 		if res.Err != nil && res.Err != wantErr {
 			return &core.Failure{Oracle: "identity", Detail: fmt.Sprintf("%s: the call returned error %q, the context's error is %q", d, res.Err, wantErr)}
 		}
+		if res.Err == nil && cancel == "blocked" {
+			// every blocked archetype has a 100 000-iteration loop left after the wait: it cannot
+			// have finished by itself within the bound
+			return &core.Failure{Oracle: "identity", Detail: fmt.Sprintf("%s: the context was closed while the program waited, far more than %d steps of work remained, yet the call returned no error (status %d)", d, c15Bound, res.Status)}
+		}
 		if res.Err == nil {
 			out.Probe("program_finished_by_itself_within_bound", 1)
 		} else {
